@@ -84,3 +84,36 @@ with read_fields (fs : fields) (vs : option (list val)) {struct fs} : list val :
 
 (* the leaves of the top-level field values `vs` of a value of type `fs` *)
 Definition leaves_of (fs : fields) (vs : list val) : list val := read_fields fs (Some vs).
+
+(* no alias tags anywhere (aliases are property C14) *)
+Fixpoint alias_free_ty (keys : list str) (t : ty) {struct t} : bool :=
+  match t with
+  | TPtr (TStruct fs _) => alias_free keys fs
+  | TStruct fs _ => alias_free keys fs
+  | _ => true
+  end
+with alias_free (keys : list str) (fs : fields) {struct fs} : bool :=
+  match fs with
+  | FNil => true
+  | FCons _ tags _ t r =>
+      match alias_split keys tags with None => true | Some _ => false end &&
+      alias_free_ty keys t && alias_free keys r
+  end.
+
+
+(* shape of a pointerified config type as the theorems need it: a struct
+   field is exactly a pointer to a struct (no **struct, no struct by value),
+   every leaf is nil-able *)
+Fixpoint wf_ty (t : ty) {struct t} : bool :=
+  match t with
+  | TPtr (TStruct fs _) => wf_fields fs
+  | TPtr t' => match count_ty t' with None => true | Some _ => false end
+  | TSlice _ _ | TMap _ _ _ => true
+  | _ => false
+  end
+with wf_fields (fs : fields) {struct fs} : bool :=
+  match fs with
+  | FNil => true
+  | FCons _ _ _ t r => wf_ty t && wf_fields r
+  end.
+
